@@ -110,6 +110,9 @@ type c20Round struct {
 	broken          bool
 	nsig            int
 	violated        bool
+	// stage, when set, is called whenever the worker is parked at a stage (before the default
+	// parked probe): the end-to-end histories of c20_e2e_verif_test.go script their arrivals there
+	stage func(p *c20Plan, stage string)
 }
 
 func (h *c20Round) witness(extra map[string]any) map[string]any {
@@ -135,7 +138,12 @@ func (h *c20Round) violation(sig, what string, extra map[string]any) {
 	h.mon.Violation(sig, what, h.witness(extra))
 }
 
-func (h *c20Round) jitter() { c20Pause(h.r) }
+func (h *c20Round) jitter() {
+	if h.stage != nil {
+		return // scripted history on one goroutine: nothing to race with
+	}
+	c20Pause(h.r)
+}
 
 func (h *c20Round) openGate(g chan struct{}) {
 	if g != nil && !h.opened[g] {
@@ -148,6 +156,9 @@ func (h *c20Round) openGate(g chan struct{}) {
 // admission; fire k more requests. All must be refused and nothing but the
 // progress report may differ between the snapshots.
 func (h *c20Round) probe(p *c20Plan, stage string) {
+	if h.stage != nil && !h.broken {
+		h.stage(p, stage)
+	}
 	k := p.Probe[stage]
 	if k == 0 || h.broken {
 		return
@@ -734,6 +745,13 @@ func (h *c20Round) run() {
 	if code, msg := e.progress(); code == consts.ReloadBusy {
 		h.violation("stale-busy-report-at-quiescence", fmt.Sprintf("nothing is in progress (flags idle) but the progress report still says busy (%q); 'dae reload' refuses to signal while the code is neither done nor error", msg),
 			map[string]any{"state": s, "progress": c20CodeName(code), "message": msg})
+	} else if code != consts.ReloadDone && code != consts.ReloadError {
+		// no client of `dae reload` exists in these rounds: only the daemon writes the report, and the
+		// last thing it has to say about a finished request is done or error
+		h.violation("progress-not-final-at-quiescence/"+c20CodeName(code), fmt.Sprintf("nothing is in progress (flags idle, every generation retired) but the progress report says %s %q instead of the final status of the last request; 'dae reload' refuses to signal while the code is neither done nor error", c20CodeName(code), msg),
+			map[string]any{"state": s, "progress": c20CodeName(code), "message": msg})
+	} else {
+		mon.Count("progress_final_at_quiescence/"+c20CodeName(code), 1)
 	}
 	h.checkHistory(base)
 }
@@ -899,7 +917,8 @@ func TestVerifC20(t *testing.T) {
 	m.Assume("the stage ORDER (which real call follows which) is transcribed from Runner.Run's closure and runStateChanges branch; a defect confined to that closure's text is out of reach",
 		"external stages (config load, newControlPlane, Listen, Serve readiness) are replaced by injected success/failure; old/new generations are zero-value control.ControlPlane",
 		"slow retirement is produced by an oldCancel callback that blocks until the harness releases it",
-		"queueReloadRequest is called concurrently from many goroutines (more hostile than the single signal loop of Runner.Run)")
+		"queueReloadRequest is called concurrently from many goroutines (more hostile than the single signal loop of Runner.Run)",
+		"end-to-end histories: the client side of `dae reload` is its real functions (readSignalProgressFile, writeReloadSendAndSignal with kill replaced by the harness' delivery, waitReloadCompletion one poll at a time) joined by a transcription of the gate in reloadCmd.Run (signal only when the file says done or error); the progress file is a scratch file written with dae's own writer; a signal is 'delivered' by calling queueReloadRequest as Runner.Run's signal loop does, or, while the main loop waits for readiness, by passing it through the real waitReloadReadyOrSignal")
 	restore := c20InstallTaps()
 	defer restore()
 	// self-check of the counter tap
@@ -932,6 +951,12 @@ func TestVerifC20(t *testing.T) {
 		}
 		m.Count("rounds", 1)
 	}
+	// end-to-end histories through both request interfaces (c20_e2e_verif_test.go)
+	tE2E := time.Now()
+	c20RunE2E(t, m, r, log)
+	tStress := time.Now()
+	c20HandoverStress(m, log)
+	m.Set("phase_wall_seconds", map[string]any{"end_to_end_histories": tStress.Sub(tE2E).Seconds(), "handover_stress": time.Since(tStress).Seconds()})
 	// Recorded, not judged: while Runner.Run waits for the new generation to become
 	// ready (waitReloadReadyOrSignal) a reload/suspend signal is consumed without any
 	// busy report. The statement's refusal clause is checked at queueReloadRequest only.
@@ -965,5 +990,7 @@ func TestVerifC20(t *testing.T) {
 		"parked_probe/queued", "parked_probe/active", "parked_probe/handoff", "parked_probe/serving", "parked_probe/retiring",
 		"refusals_overlapping_a_release", "admitted",
 		"hook/handoff:flagged-before-notify", "hook/queue:refused-before-report", "hook/release:pending-cleared")
+	m.Require(c20E2ERequired()...)
+	m.Require("handover_stress/handovers", "handover_stress/refused_while_held", "progress_final_at_quiescence/done", "progress_final_at_quiescence/error")
 	m.Done(t)
 }
